@@ -377,7 +377,11 @@ pub fn adversarial_prove_full(circ: &Circ, part: PartitionWitness<F>, cor: &Corr
         Ok(Err(e)) => ("prove-err".into(), e.to_string().chars().take(60).map(|c| if c == ' ' { '_' } else { c }).collect(), None),
         Ok(Ok(proof)) => match verdict(&circ.data, proof.clone()) {
             "ok" => ("ACCEPTED".into(), String::new(), Some(proof)),
-            "err" => ("rejected".into(), String::new(), Some(proof)),
+            "err" => {
+                // the other verification entry point: compress, then verify_compressed (a panic there is C18's business)
+                let comp = catch_unwind(AssertUnwindSafe(|| circ.data.compress(proof.clone()).and_then(|c| circ.data.verify_compressed(c))));
+                if matches!(comp, Ok(Ok(()))) { ("ACCEPTED".into(), "by-verify_compressed".into(), Some(proof)) } else { ("rejected".into(), String::new(), Some(proof)) }
+            }
             _ => ("verify-panic".into(), panic_site(), None),
         },
     }
@@ -539,6 +543,30 @@ pub fn run_program_on(w: &mut dyn Write, r: &mut Rng, pi: usize, cname: &str, cf
              circ.n, circ.data.common.gates.len(), sat.clone().unwrap_or("yes".into()), cyc_ok, ncycles, out, det).unwrap();
     let mut lines = 1;
     if ok == 0 { return lines; }
+    // the link between the witness and the DECLARED public inputs: an honest proof whose declared vector is
+    // altered afterwards (one value changed; extended by a zero - hash_no_pad does not separate [x] from [x, 0];
+    // shortened) must be rejected by verify and by verify_compressed
+    {
+        verif_knobs::reset();
+        let honest_proof = catch_unwind(AssertUnwindSafe(|| prove_with_partition_witness(&circ.data.prover_only, &circ.data.common, part0.clone(), &mut TimingTree::default())));
+        if let Ok(Ok(p0)) = honest_proof {
+            let mut variants: Vec<(&str, Pwpi)> = vec![];
+            let mut q = p0.clone(); q.public_inputs.push(F::ZERO); variants.push(("appended-zero", q));
+            let mut q = p0.clone(); for _ in 0..8 { q.public_inputs.push(F::ZERO); } variants.push(("appended-8-zeros", q));
+            let mut q = p0.clone(); q.public_inputs.push(F::from_canonical_u64(1 + r.below(1000))); variants.push(("appended-value", q));
+            let mut q = p0.clone(); if q.public_inputs.pop().is_some() { variants.push(("dropped-last", q)); }
+            let mut q = p0.clone(); if let Some(x) = q.public_inputs.first_mut() { *x += F::ONE; variants.push(("first-changed", q)); }
+            for (name, q) in variants {
+                let plain = verdict(&circ.data, q.clone());
+                let comp = match catch_unwind(AssertUnwindSafe(|| circ.data.compress(q.clone()).and_then(|c| circ.data.verify_compressed(c)))) {
+                    Ok(Ok(())) => "ok", Ok(Err(_)) => "err", Err(_) => "panic" };
+                let out = if plain == "ok" || comp == "ok" { "ACCEPTED" } else { "rejected" };
+                writeln!(w, "c02 {pi} {cname} declared-public-inputs ignore-checks = {} # {name} violated=public-inputs outcome={out} verify={plain} verify_compressed={comp}",
+                         (out != "ACCEPTED") as u8).unwrap();
+                lines += 1;
+            }
+        }
+    }
 
     // strategies on the honest witness: every knob has an observable effect
     let nch = cfg.num_challenges;
